@@ -326,7 +326,7 @@ def conv1d(
         if padding is PaddingMode.NONE:
             margin = 0
         else:
-            margin = same_padding(kernel.shape, dilation)
+            margin = same_padding(kernel.shape[0], dilation)
     result = data.type(kernel.dtype)
     result = move_dim(result, dim, -1)
     shape_ = result.shape
